@@ -48,6 +48,8 @@ pub enum COp {
     SEntry(u8),
     SXorAssign(u8, u8),
     SSubAssign(u8, u8),
+    SOrAssign(u8, u8),
+    SAndAssign(u8, u8),
     SRetainEven,
     SIterate,
 }
@@ -63,6 +65,8 @@ fn alphabet_set(ids: &[u8]) -> Vec<COp> {
     if ids.len() >= 2 {
         v.push(COp::SXorAssign(ids[0], ids[1]));
         v.push(COp::SSubAssign(ids[0], ids[1]));
+        v.push(COp::SOrAssign(ids[0], ids[1]));
+        v.push(COp::SAndAssign(ids[0], ids[1]));
     }
     v
 }
@@ -149,14 +153,15 @@ fn apply_set(s: &mut S, op: COp, tok: &mut u32) -> Result<(), String> {
                 v.insert();
             }
         },
-        COp::SXorAssign(a, b) | COp::SSubAssign(a, b) => {
+        COp::SXorAssign(a, b) | COp::SSubAssign(a, b) | COp::SOrAssign(a, b) | COp::SAndAssign(a, b) => {
             let mut o = S::default();
             o.insert(TKey::make(a, t()));
             o.insert(TKey::make(b, t()));
-            if matches!(op, COp::SXorAssign(..)) {
-                *s ^= &o;
-            } else {
-                *s -= &o;
+            match op {
+                COp::SXorAssign(..) => *s ^= &o,
+                COp::SSubAssign(..) => *s -= &o,
+                COp::SOrAssign(..) => *s |= &o,
+                _ => *s &= &o,
             }
         }
         COp::SRetainEven => s.retain(|k| k.id % 2 == 0),
@@ -174,7 +179,7 @@ fn apply_set(s: &mut S, op: COp, tok: &mut u32) -> Result<(), String> {
 fn is_set_op(op: COp) -> bool {
     matches!(
         op,
-        COp::SInsert(_) | COp::SRemove(_) | COp::SGet(_) | COp::SGetOrInsert(_) | COp::SGetOrInsertWith(_) | COp::SReplace(_) | COp::STake(_) | COp::SEntry(_) | COp::SXorAssign(..) | COp::SSubAssign(..) | COp::SRetainEven | COp::SIterate
+        COp::SInsert(_) | COp::SRemove(_) | COp::SGet(_) | COp::SGetOrInsert(_) | COp::SGetOrInsertWith(_) | COp::SReplace(_) | COp::STake(_) | COp::SEntry(_) | COp::SXorAssign(..) | COp::SSubAssign(..) | COp::SOrAssign(..) | COp::SAndAssign(..) | COp::SRetainEven | COp::SIterate
     )
 }
 
